@@ -39,7 +39,7 @@ MANIFEST = {
 }
 TIME_CAP = {"quick": 90, "thorough": 1500}
 
-SP = [{"a": 1}, {"a": 2}, {"a": 3}]
+SP = [{"a": 1, "b": {"x": 2, "y": 3}}, {"a": 2}, {"a": 3}]  # SP[0] has an order to write its keys in
 
 
 def EXHAUSTIVE(tier):
@@ -100,7 +100,7 @@ def build_initial(root, initial):
         shutil.rmtree(os.path.join(root, "workspace"), ignore_errors=True)
 
 
-def make_script(ops, root):
+def make_script(ops, root, index=0):
     def script(side):
         import signac
 
@@ -122,7 +122,12 @@ def make_script(ops, root):
                 p = signac.init_project(root)
                 values.append(None)
             elif kind == "init":
-                p.open_job(copy.deepcopy(SP[op[1]])).init()
+                sp = copy.deepcopy(SP[op[1]])
+                if index % 2:
+                    # the same state point with its keys written in the opposite order (same id, other file bytes)
+                    sp = {k: (dict(reversed(list(v.items()))) if isinstance(v, dict) else v)
+                          for k, v in reversed(list(sp.items()))}
+                p.open_job(sp).init()
                 values.append(None)
             elif kind == "docset":
                 p.open_job(copy.deepcopy(SP[op[1]])).document[op[2]] = op[3]
@@ -259,7 +264,7 @@ def explore(ctx, name, initial, scripts, part, parts, judge_fn, budget, seed):
 
     def run_schedule(chooser):
         root = root_factory()
-        fns = [make_script(ops, root) for ops in scripts]
+        fns = [make_script(ops, root, k) for k, ops in enumerate(scripts)]
         res = sched.execute(lambda: root, fns, chooser)
         return res
 
